@@ -752,24 +752,69 @@ pub fn props(args: &[String]) {
         }
     }
     // an item whose hash equals the empty-bin marker u64::MAX, first in its bin, then replaced by another item of the bin
+    macro_rules! marker_corpus { ($S:ident, $name:expr) => {
     for m in [1usize, 2, 16] {
         tried += 1;
         crate::util::tick_idx(0, json!({"m": m, "items": "u64::MAX then 0..200 (NoHashHasher)"}));
         for x in 0..200u64 {
             let stream = vec![u64::MAX, x];
-            let r = catch_unwind(AssertUnwindSafe(|| dens_views!(OptDensMinHash, f64, NoHashHasher, m, &stream, false)));
-            let r2 = catch_unwind(AssertUnwindSafe(|| dens_views!(OptDensMinHash, f64, NoHashHasher, m, &vec![x, u64::MAX], false)));
+            let r = catch_unwind(AssertUnwindSafe(|| dens_views!($S, f64, NoHashHasher, m, &stream, false)));
+            let r2 = catch_unwind(AssertUnwindSafe(|| dens_views!($S, f64, NoHashHasher, m, &vec![x, u64::MAX], false)));
             match (r, r2) {
                 (Ok((f1, u1, _)), Ok((f2, u2, _))) => {
                     if f1.iter().any(|b| !(f64::from_bits(*b) < 1.0)) || (f1, u1) != (f2, u2) {
-                        add("dens-marker-hash", format!("OptDensMinHash<f64,u64,NoHashHasher> m={}: the stream [u64::MAX, {}] leaves a position unfilled or depends on order", m, x), json!({"m": m, "items": vj(&stream), "hasher": "superminhasher::NoHashHasher"}));
+                        add("dens-marker-hash", format!("{}<f64,u64,NoHashHasher> m={}: the stream [u64::MAX, {}] leaves a position unfilled or depends on order", $name, m, x), json!({"m": m, "items": vj(&stream), "hasher": "superminhasher::NoHashHasher"}));
                         break;
                     }
                 }
-                _ => { add("dens-marker-hash", format!("OptDensMinHash<f64,u64,NoHashHasher> m={}: sketching [u64::MAX, {}] and end_sketch panics", m, x), json!({"m": m, "items": vj(&stream), "hasher": "superminhasher::NoHashHasher"})); break; }
+                _ => { add("dens-marker-hash", format!("{}<f64,u64,NoHashHasher> m={}: sketching [u64::MAX, {}] and end_sketch panics", $name, m, x), json!({"m": m, "items": vj(&stream), "hasher": "superminhasher::NoHashHasher"})); break; }
             }
         }
     }
+    } }
+    // f32 instantiation: only 2^23 distinct draws, so two items of one bin can draw the same value, or neighbouring ones;
+    // pairs found through size-1 sketches, then the two-item set in both orders at sizes 1 and 64
+    macro_rules! f32_ties { ($S:ident, $name:expr) => {{
+        let nitems = 60_000u64;
+        let mut seen: std::collections::HashMap<u64, u64> = std::collections::HashMap::new();
+        let mut pairs: Vec<(u64, u64, &str)> = Vec::new();
+        let mut draws: Vec<(u64, u64)> = Vec::new();
+        for x in 0..nitems {
+            if x % 4096 == 0 { crate::util::tick_idx(0, json!({"f32_ties_scan": x})); }
+            let (f, _, _) = dens_views!($S, f32, FnvHasher, 1usize, &vec![x], false);
+            draws.push((f[0], x));
+            if let Some(y) = seen.get(&f[0]) { if pairs.len() < 40 { pairs.push((*y, x, "the same f32 draw")); } } else { seen.insert(f[0], x); }
+        }
+        draws.sort_unstable();
+        let mut near = 0;
+        // non-negative floats sort like their bit patterns; the sampler's grid step is 2^-23
+        for w in draws.windows(2) {
+            let (lo, hi) = (f32::from_bits(w[0].0 as u32), f32::from_bits(w[1].0 as u32));
+            if hi > lo && hi - lo <= 1.2e-7 && near < 120 { pairs.push((w[0].1, w[1].1, "f32 draws one grid step apart")); near += 1; }
+        }
+        for (x, y, what) in pairs {
+            for m in [1usize, 64] {
+                tried += 1;
+                let r = catch_unwind(AssertUnwindSafe(|| {
+                    let a = dens_views!($S, f32, FnvHasher, m, &vec![x, y], false);
+                    let same = a == dens_views!($S, f32, FnvHasher, m, &vec![y, x], false) && a == dens_views!($S, f32, FnvHasher, m, &vec![x, y], true)
+                        && a == dens_views!($S, f32, FnvHasher, m, &vec![y, x], true);
+                    (same, true)
+                }));
+                match r {
+                    Ok((a, b)) => if a != b {
+                        add("dens-f32-order", format!("{}<f32,u64,FnvHasher> m={}: the items {} and {} ({}) give different sketches in the two orders or through sketch_slice", $name, m, x, y, what),
+                            json!({"m": m, "items": [x, y], "float": "f32", "hasher": "FnvHasher"}));
+                    },
+                    Err(_) => add("dens-f32-order", format!("{}<f32,u64,FnvHasher> m={}: sketching the items {} and {} panics", $name, m, x, y), json!({"m": m, "items": [x, y], "float": "f32"})),
+                }
+            }
+        }
+    }} }
+    f32_ties!(OptDensMinHash, "OptDensMinHash");
+    f32_ties!(RevOptDensMinHash, "RevOptDensMinHash");
+    marker_corpus!(OptDensMinHash, "OptDensMinHash");
+    marker_corpus!(RevOptDensMinHash, "RevOptDensMinHash");
     for round in 0..n {
         crate::util::tick_idx(round as u64, serde_json::Value::Null);
         let mut m = if rng.coin(0.5) { rng.range(1, 8) } else { rng.range(1, 256) } as usize;
